@@ -121,6 +121,15 @@ pub fn run(args: &[String]) {
                     case(&mut w, "template+prelude", &format!("{PRELUDE}{}", ctx_wrap(c, &t)));
                 }
             }
+            // every statement form as a brace-less body (the analyser wraps it in a block itself)
+            for wrapped in [format!("if (c) {t}"), format!("if (c) c = 1; else {t}"), format!("while (c) {t}"), format!("for int i in [0:1] {t}"), format!("def ff() {{ if (c) {t} }}")] {
+                if mine() {
+                    case(&mut w, "template-braceless", &wrapped);
+                }
+                if mine() {
+                    case(&mut w, "template-braceless+prelude", &format!("{PRELUDE}{wrapped}"));
+                }
+            }
         }
         // the repository's snippets
         for s in crate::fam_tree::corpus() {
